@@ -20,8 +20,9 @@ RULE = (
     "{0,0.3,0.7,1,2.5,1000}, so a second boundary falls between any two reads. Operations "
     "get, multiget, getnext, multigetnext, set, multiset, bulkget, walk, multiwalk, bulkwalk, "
     "table, bulktable on v1/v2c/five v3 levels incl. the discovery exchange. (a) echo agent: "
-    "must be accepted, result correct; (b) perturbing agent: response request-id = id + d, "
-    "d in {+-1, +-2^31, random} on request k of the operation => InvalidResponseId and no "
+    "must be accepted, result correct, also when it rebooted since discovery (authentic "
+    "notInTimeWindow report, re-synchronisation, retry); (b) perturbing agent: response request-id = id + d, "
+    "d in {+-1, +-2^31, random} or an absolute id in {0, 1, -1, 2^31-1} on request k of the operation => InvalidResponseId and no "
     "data; discovery reply with perturbed message id => refused, no request follows; (c) "
     "community replies with another community / version number => refused (any exception). "
     "Seam monitor: (request-id decoded from the datagram sent, response request-id) per "
@@ -127,6 +128,11 @@ def run_case(R, level, op, fault, k, delta, step_seed, prime, err=None):
     if step_seed is not None:
         env.CLOCK.stepping(lambda: srng.choice(STEPS))
     state = {"n": 0, "applied": False}
+    if fault == "reboot":
+        # not a fault of the agent at all: it rebooted since discovery, answers the
+        # first attempt with an authentic notInTimeWindow report and echoes ids
+        w.agent.reboot()
+        state["applied"] = True
     if fault == "rid":
         def hook(req, resp):
             i = state["n"]
@@ -134,7 +140,12 @@ def run_case(R, level, op, fault, k, delta, step_seed, prime, err=None):
             if i != k:
                 return resp
             out = dict(resp)
-            out["request_id"] = resp["request_id"] + delta
+            if isinstance(delta, (list, tuple)):
+                if delta[1] == resp["request_id"]:
+                    return resp
+                out["request_id"] = delta[1]  # an absolute id: 0, 1, -1, ...
+            else:
+                out["request_id"] = resp["request_id"] + delta
             if err:
                 # an ERROR response that does not belong to the request
                 out["error_status"] = err
@@ -192,7 +203,7 @@ def run_case(R, level, op, fault, k, delta, step_seed, prime, err=None):
     finally:
         reads = env.CLOCK.reads - reads0
         env.CLOCK.freeze(1_700_000_000.0)
-    fp = ("c07", level, op, fault, k, None if delta is None else (delta > 0, abs(delta) > 2), step_seed is not None and step_seed % 13, prime, err)
+    fp = ("c07", level, op, fault, k, None if delta is None else (tuple(delta) if isinstance(delta, (list, tuple)) else (delta > 0, abs(delta) > 2)), step_seed is not None and step_seed % 13, prime, err)
     R.case(fp, fault is None or state["applied"], sample={**case, "clock_reads": reads, "outcome": kind if kind != "exc" else repr(val)} if R.evaluations % 397 == 0 else None)
     R.mon["clock_reads_during_ops"] += reads
     pairs = id_pairs(w)
@@ -204,7 +215,7 @@ def run_case(R, level, op, fault, k, delta, step_seed, prime, err=None):
     if kind == "ok" and any(a != b for a, b in pairs):
         R.violation(case, "call returned normally although an exchange had request-id %r answered with %r" % next((a, b) for a, b in pairs if a != b), None)
         return
-    if fault is None:
+    if fault in (None, "reboot"):
         if kind != "ok":
             mech = None
             if op in ("set", "multiset") and isinstance(val, InvalidResponseId) and step_seed is not None:
@@ -215,6 +226,8 @@ def run_case(R, level, op, fault, k, delta, step_seed, prime, err=None):
             R.violation(case, "echo agent accepted but result differs from the quiet run", None)
             return
         R.mon["echo_accepted"] += 1
+        if fault == "reboot":
+            R.mon["echo_accepted_after_reboot_resync"] += 1
         if step_seed is not None and reads >= 2:
             R.mon["echo_accepted_clock_moved_during_op"] += 1
         return
@@ -229,7 +242,7 @@ def run_case(R, level, op, fault, k, delta, step_seed, prime, err=None):
         return
     if fault == "rid":
         if not isinstance(val, InvalidResponseId):
-            R.violation(case, "request-id off by %d%s: expected InvalidResponseId, got %r" % (delta, " on an error response (status %d)" % err if err else "", val), "error-response-id-unchecked" if err else None)
+            R.violation(case, "request-id %s%s: expected InvalidResponseId, got %r" % ("replaced by %d" % delta[1] if isinstance(delta, (list, tuple)) else "off by %d" % delta, " on an error response (status %d)" % err if err else "", val), "error-response-id-unchecked" if err else None)
             return
         R.mon["perturbed_refused"] += 1
         if err:
@@ -263,10 +276,12 @@ def run(R):
         step_seed = rng.randint(0, 10**9) if rng.random() < 0.8 else None
         prime = rng.random() < 0.5
         err = rng.choice((None, None, 2, 5, 1, 17))
-        if r < 0.45:
+        if level in rig.AUTH_LEVELS and r < 0.12:
+            run_case(R, level, op, "reboot", 0, None, step_seed, True)
+        elif r < 0.45:
             run_case(R, level, op, None, 0, None, step_seed, prime)
         elif r < 0.8:
-            delta = rng.choice((1, -1, 2**31, -(2**31), rng.randint(-(2**31), 2**31) or 7))
+            delta = rng.choice((1, -1, 2**31, -(2**31), rng.randint(-(2**31), 2**31) or 7, ("abs", 0), ("abs", 0), ("abs", 1), ("abs", -1), ("abs", 2**31 - 1)))
             run_case(R, level, op, "rid", rng.choice((0, 0, 1, 2)), delta, step_seed, True, err)
         elif v3:
             run_case(R, level, op, "disco", 0, rng.choice((1, -1, 12345)), step_seed, False)
